@@ -6,6 +6,7 @@ import (
 	"fmt"
 	"io"
 	"net"
+	"os"
 	"time"
 
 	plugin "github.com/hashicorp/go-plugin"
@@ -31,6 +32,7 @@ type serveOpts struct {
 	seventh    string                // seventh field ("" = "true" when mux, absent otherwise)
 	realStdout []byte                // written to the real stdout after the handshake line
 	tcpAddr    string                // listen on this TCP address (e.g. a wildcard one) instead of a unix socket
+	relSock    bool                  // listen on a unix socket with a RELATIVE path (host and plugin share the working directory)
 }
 
 // servePlugin is the script of a healthy plugin: what plugin.Serve does after
@@ -54,6 +56,10 @@ func servePlugin(o serveOpts) func(r *scriptRunner) {
 			if o.tcpAddr != "" {
 				ln, err = vnet.Listen("tcp", o.tcpAddr)
 			}
+			if o.relSock {
+				ln.Close()
+				ln, err = relListener(r)
+			}
 			if err != nil {
 				r.x.Fail("ENGINE", "listener: %v", err)
 				return
@@ -69,6 +75,13 @@ func servePlugin(o serveOpts) func(r *scriptRunner) {
 			defer l.Close()
 		case "grpc":
 			var tl net.Listener
+			if o.relSock {
+				var err error
+				if tl, err = relListener(r); err != nil {
+					r.x.Fail("ENGINE", "listener: %v", err)
+					return
+				}
+			}
 			if o.tcpAddr != "" {
 				var err error
 				if tl, err = vnet.Listen("tcp", o.tcpAddr); err != nil {
@@ -124,4 +137,14 @@ func servePlugin(o serveOpts) func(r *scriptRunner) {
 			}
 		}
 	}
+}
+
+// relListener listens on a unix socket whose path is relative to the (shared) working directory.
+func relListener(r *scriptRunner) (net.Listener, error) {
+	dir := fmt.Sprintf("verif-rel-%d-%d", os.Getpid(), r.x.ExecID)
+	if err := os.MkdirAll(dir, 0o755); err != nil {
+		return nil, err
+	}
+	r.x.OnCleanup(func() { os.RemoveAll(dir) })
+	return vnet.Listen("unix", dir+"/plugin.sock")
 }
